@@ -50,7 +50,8 @@ def cases(draw):
     mix_at = draw(st.one_of(st.none(), st.integers(0, d - 1)))
     sib_at = draw(st.one_of(st.none(), st.integers(0, d - 1)))
     names = ['K%d' % i for i in range(d)]
-    position = draw(st.sampled_from(['doc', 'list', 'dict', 'attr', 'attr', 'union', 'optlist']))
+    position = draw(st.sampled_from(['doc', 'list', 'dict', 'attr', 'attr', 'union', 'optlist',
+                                     'aliaslist']))
     all_names = names + (['Top'] if top else []) + (['Mix'] if mix_at is not None else []) + \
         (['Sib'] if sib_at is not None else []) + (['W'] if position == 'attr' else [])
     hooks = {n: {'savorize': draw(st.booleans()), 'sweeten': draw(st.booleans()),
@@ -73,10 +74,16 @@ def cases(draw):
     # the unregistered mix-in / topmost ancestor comes from "another module" and has
     # the same __name__ as a registered class of the chain
     alias = draw(st.one_of(st.none(), st.none(), st.integers(0, d - 1)))
+    objs = [obj() for _ in range(n)]
+    if position == 'aliaslist':
+        # [&o obj, &c [*o], *c]: one object written once and reached three times,
+        # through an alias inside a collection that is itself aliased - three
+        # nodes, each loaded (and seasoned) exactly once
+        objs = [objs[0]] * 3
     return {'depth': d, 'top': top, 'mix_at': mix_at, 'sib_at': sib_at, 'hooks': hooks,
             'word_cls': word_cls, 'raise_cls': raise_cls, 'position': position,
             'strict_at': strict_at, 'alias': alias,
-            'objs': [obj() for _ in range(n)],
+            'objs': objs,
             'order_rev': draw(st.booleans()), 'mix_first': draw(st.booleans())}
 
 
@@ -151,7 +158,8 @@ def build_spec(case):
         classes.append(w)
     doc_type = {'doc': k0, 'list': ['list', k0], 'dict': ['dict', 'str', k0],
                 'attr': ['ref', 'W'], 'union': ['union', 'int', k0, ['list', 'str']],
-                'optlist': ['list', ['opt', k0]]}[pos]
+                'optlist': ['list', ['opt', k0]],
+                'aliaslist': ['list', ['union', k0, ['list', k0]]]}[pos]
     order = [c['name'] for c in classes]
     if case['order_rev']:
         order = order[::-1]
@@ -174,6 +182,8 @@ def doc_text(case):
     ts = [obj_text(o, strict=case.get('strict_at')) for o in case['objs']]
     if pos in ('doc', 'union'):
         return ts[0]
+    if pos == 'aliaslist':
+        return '[&o %s, &c [*o], *c]' % ts[0]
     if pos in ('list', 'optlist'):
         return '[' + ', '.join(ts) + ']'
     if pos == 'dict':
